@@ -17,7 +17,7 @@ import os
 import random
 import time
 
-from vf.core import Ctx, cfg_text, main_wrapper, Machinery, REPO
+from vf.core import Ctx, cfg_text, main_wrapper, Machinery, REPO, time_limit, HardTimeout
 from vf import parsercommon as pc
 from icalendar import Component, Calendar
 from icalendar.timezone import tzp
@@ -45,7 +45,11 @@ def exercise(res):
 
 def outcome(text, multiple):
     t0 = time.process_time()
-    r = pc.real_parse(text, multiple)
+    try:
+        with time_limit(20):
+            r = pc.real_parse(text, multiple)
+    except HardTimeout:
+        return "exc", "no result within 20 s", 20000, None
     out = r[0]
     detail = r[1] if r[0] != "ok" else None
     if r[0] == "ok":
